@@ -265,8 +265,11 @@ func preludeFor(body string) string {
 
 // ---------- scripts ----------
 
-func (ex *Exec) script(ob *Obligation, negate bool) string {
+func (ex *Exec) script(ob *Obligation, negate bool) string { return ex.scriptWith(ob, negate, "") }
+
+func (ex *Exec) scriptWith(ob *Obligation, negate bool, extra string) string {
 	var body strings.Builder
+	body.WriteString(extra)
 	for _, p := range ob.PC {
 		body.WriteString("(assert " + p + ")\n")
 	}
